@@ -38,4 +38,8 @@ def run(ctx):
     lib_py.kw_forward(ctx, py, mods=("trees", "stats"), only=ps)
     lib_py.unused_params(ctx, py, mods=("trees", "stats"), only=ps)
     lib_py.ll_positional(ctx, py, P, only=ps)
+    lib_module.name_agreement(ctx, P, classes=("TreeSequence", "LdCalculator"), floor=60)
+    lib_py.facade_names(ctx, py, P, classes=(("trees", "TreeSequence"),), floor=90,
+                        exempt={"TreeSequence.get_population": "deprecated alias for the population *of a node*; unrelated to the "
+                                                               "low-level get_population(id) row getter"})
     lib_mem.c_lints(ctx, ctx.program(), scopes.lib_scope("C08"))
